@@ -35,8 +35,8 @@ import (
 	"github.com/cosmos/cosmos-sdk/x/slashing"
 	slashingtypes "github.com/cosmos/cosmos-sdk/x/slashing/types"
 	stakingtypes "github.com/cosmos/cosmos-sdk/x/staking/types"
-	"github.com/ethereum/go-ethereum/common"
 	ibctransfertypes "github.com/cosmos/ibc-go/v7/modules/apps/transfer/types"
+	"github.com/ethereum/go-ethereum/common"
 
 	"github.com/haqq-network/haqq/testutil"
 	coinomicstypes "github.com/haqq-network/haqq/x/coinomics/types"
@@ -375,7 +375,9 @@ func (e *bnEnv) apply(op burnOp) error {
 		}
 		return e.atomic(func(ctx sdk.Context) error { return e.App.EvmKeeper.SetBalance(ctx, addr, cur) })
 	case "bankburn":
-		return e.atomic(func(ctx sdk.Context) error { return e.App.BankKeeper.BurnCoins(ctx, bnModules[op.W], bnCoins(op.Coins)) })
+		return e.atomic(func(ctx sdk.Context) error {
+			return e.App.BankKeeper.BurnCoins(ctx, bnModules[op.W], bnCoins(op.Coins))
+		})
 	}
 	return fmt.Errorf("bad op %q", op.Op)
 }
